@@ -64,12 +64,12 @@ def models(tier):
                    prelude=_prelude))
     ms.append(dict(tag="iter-K4", consts=dict(base, MaxKey=4, Vals={1}, WithIter=True), invariants=inv, properties=prop,
                    workers=8, mc_only=(tier == "quick"), trace_consts=TRACE_CONSTS, replays=_replays([0, 3]), prelude=_prelude,
-                   heap="16g"))
+                   heap="8g"))
     if tier == "thorough":
         ms.append(dict(tag="iter-K5-T3", consts=dict(base, MaxKey=5, Vals={1}, WithIter=True, TidMod=3), invariants=inv, properties=[],
-                       workers=16, mc_only=True, heap="24g", replays=[]))
+                       workers=8, mc_only=True, heap="8g", replays=[]))
         ms.append(dict(tag="shape-K12", consts=dict(base, MaxKey=12, Vals={1}, WithIter=False), invariants=inv, properties=prop,
-                       workers=8, mc_only=True, heap="16g", replays=[]))
+                       workers=8, mc_only=True, heap="8g", replays=[]))
     return ms
 
 
